@@ -272,6 +272,24 @@ def family_starve(tier, seed, n=None):
             ops.append({"op": "call", "call": mcall()})
             ops.append({"op": "explore", "call": mcall(), "paths": ["o1.a", "o1.b"], "max_paths": 4000 if tier == "quick" else 40000})
         out.append({"id": "S14/%s/%s/%d" % (kind, "core" if core else "s%d" % seed, t), "world": world, "ops": ops, "tags": []})
+    # a dist nested under a condition confines its field only where the condition holds: elsewhere every value stays reachable
+    for t in range(3 if tier == "quick" else 9):
+        rnd = random.Random(1470 + t)
+        fields = [fld("a", 2, False), fld("b", 1, False), fld("k", 2, False, rand=False, init=rnd.randrange(4))]
+        vs = rnd.sample(range(4), 2)
+        dist = {"k": "dist", "e": F("a"), "ws": [W(V(vs[0]), 1), W(V(vs[1]), rnd.choice([0, 2]))]}
+        cond = B("eq", F("b"), lit(t % 2)) if t % 3 != 2 else B("le", F("k"), lit(1))
+        if t % 2 == 0:
+            body = [{"k": "if", "arms": [{"c": cond, "body": [dist]}], "els": [E(B("ne", F("a"), lit(vs[0])))] if t % 4 == 0 else []}]
+        else:
+            body = [{"k": "imp", "c": cond, "body": [dist]}]
+        world = one(fields, [blk("c1", body)])
+        ops = [{"op": "construct", "o": "o1"}, {"op": "call", "call": mcall()},
+               {"op": "probe", "call": wcall(), "paths": ["o1.a", "o1.b"]},
+               {"op": "explore", "call": mcall(), "paths": ["o1.a", "o1.b"], "max_paths": 6000 if tier == "quick" else 60000},
+               {"op": "set", "p": "o1.k", "v": bits(3 - fields[2]["init"], 2)},
+               {"op": "explore", "call": mcall(), "paths": ["o1.a", "o1.b"], "max_paths": 6000 if tier == "quick" else 60000}]
+        out.append({"id": "S14/cond_dist/%d" % t, "world": world, "ops": ops, "tags": []})
     # a field that shares constraints with ORDERED fields but is named in no solve_order: still ranges over all its feasible values
     for t in range(2 if tier == "quick" else 6):
         rnd = random.Random(1450 + t)
